@@ -9,9 +9,12 @@ import (
 	"encoding/json"
 	"fmt"
 	"os"
+	"os/exec"
+	"path/filepath"
 	"runtime"
 	"runtime/debug"
 	"sort"
+	"strings"
 	"sync"
 	"sync/atomic"
 
@@ -70,7 +73,68 @@ func main() {
 	}
 	c := ev.New(id, ck.level, tier)
 	ck.fn(c)
+	if cpuSubrunIDs[id] && os.Getenv("VERIF_SUBRUN") == "" {
+		cpuSubrun(c, id)
+	}
 	os.Exit(c.Finish())
+}
+
+// pure-function checks are re-run, thinned, in a child restricted to a non-power-of-two number of
+// CPUs (runtime.NumCPU() = 3, 5, 6 or 7 by seed): results must not depend on the machine's CPU count.
+var cpuSubrunIDs = map[string]bool{"C01": true, "C02": true, "C03": true, "C04": true, "C05": true, "C06": true, "C11": true, "C12": true, "C15": true, "C16": true, "C17": true, "C19": true}
+
+func cpuSubrun(c *ev.Ctx, id string) {
+	cpus := []int{3, 6, 5, 7}[int(uint64(c.Seed)%4)]
+	if runtime.NumCPU() <= cpus {
+		c.Note("cpu_count_subrun", fmt.Sprintf("skipped: only %d CPUs available", runtime.NumCPU()))
+		return
+	}
+	bin := os.Getenv("VERIF_BIN")
+	work := os.Getenv("VERIF_WORK")
+	if bin == "" || work == "" {
+		c.Note("cpu_count_subrun", "skipped: harness binary path not set")
+		return
+	}
+	out := filepath.Join(work, "sub")
+	_ = os.MkdirAll(out, 0o755)
+	cmd := exec.Command("taskset", "-c", fmt.Sprintf("0-%d", cpus-1), bin, id, c.Tier)
+	cmd.Env = append(os.Environ(), "VERIF_SUBRUN=1", "VERIF_LITE=1", "VERIF_OUT="+out)
+	b, err := cmd.Output()
+	lines := strings.Split(string(b), "\n")
+	nv := 0
+	for i, ln := range lines {
+		if strings.HasPrefix(ln, "VIOLATION ") {
+			detail := ""
+			if i+1 < len(lines) {
+				detail = strings.TrimSpace(lines[i+1])
+			}
+			nv++
+			c.Violation(fmt.Sprintf("numcpu=%d:%s", cpus, clipS(detail, 120)), fmt.Sprintf("with runtime.NumCPU()=%d (taskset): %s", cpus, detail), "subrun", map[string]interface{}{"cpus": cpus, "detail": detail})
+		}
+		if strings.HasPrefix(ln, "SUMMARY ") {
+			var ev2, dn int
+			if k := strings.Index(ln, "evaluations="); k >= 0 {
+				fmt.Sscanf(ln[k:], "evaluations=%d distinct_nontrivial=%d", &ev2, &dn)
+			}
+			c.Count(fmt.Sprintf("evaluations_repeated_with_NumCPU=%d", cpus), int64(ev2))
+		}
+	}
+	if err != nil && nv == 0 {
+		if ee, ok := err.(*exec.ExitError); ok && ee.ExitCode() == 3 {
+			c.Note("cpu_count_subrun", "child could not decide (exit 3)")
+		} else if ee, ok := err.(*exec.ExitError); ok && ee.ExitCode() == 1 {
+			c.Violation(fmt.Sprintf("numcpu=%d:unparsed", cpus), "child reported a violation: "+clipS(string(b), 800), "subrun", cpus)
+		} else {
+			c.Inconclusive(fmt.Sprintf("CPU-count subrun failed to run: %v", err))
+		}
+	}
+}
+
+func clipS(s string, n int) string {
+	if len(s) > n {
+		return s[:n]
+	}
+	return s
 }
 
 func usage() {
